@@ -63,6 +63,7 @@ class Emitter:
         self.typeinfo_ids = {}
         self.extra_protos = {}
         self.global_fwd = []
+        self.entry_names = set()
 
     # ------------------------------------------------------------------ scaling
     def nb(self, n):
@@ -602,6 +603,8 @@ class Emitter:
 
     # ------------------------------------------------------------------ functions
     def fname(self, name):
+        if name in self.entry_names:
+            return self.gname(name) + '__body'
         return self.gname(name)
 
     def lname(self, name):
@@ -622,7 +625,7 @@ class Emitter:
         return '%s %s(%s)' % (rt, name or self.fname(f.name), args)
 
     def emit_function(self, f):
-        blocks = parse_body(f)
+        blocks = self.layout(parse_body(f))
         self.cur_f = f
         # locals
         loc = {}
@@ -698,6 +701,46 @@ class Emitter:
         out.extend('  ' + b for b in body)
         out.append('}')
         return '\n'.join(out)
+
+    def layout(self, blocks):
+        """reverse post-order: every textual backward jump is then a real loop back edge (CBMC counts
+        unwindings per backward goto, so LLVM's own block order can defeat --unwind)"""
+        succ = {}
+        for label, ins in blocks:
+            t = ins[-1]
+            op = t['op']
+            if op == 'br':
+                s_ = [t['dest']] if t['cond'] is None else [t['t'], t['f']]
+            elif op == 'switch':
+                s_ = [t['default']] + [lab for _, lab in t['cases']]
+            elif op == 'invoke':
+                s_ = [t['ok'], t['lpad']]
+            else:
+                s_ = []
+            succ[label] = s_
+        entry = blocks[0][0]
+        order = []
+        seen = set()
+        # iterative DFS, successors visited in reverse so that the first successor comes first in RPO
+        stack = [(entry, iter(reversed(succ[entry])))]
+        seen.add(entry)
+        while stack:
+            node, it = stack[-1]
+            adv = False
+            for n in it:
+                if n not in seen:
+                    seen.add(n)
+                    stack.append((n, iter(reversed(succ[n]))))
+                    adv = True
+                    break
+            if not adv:
+                order.append(node)
+                stack.pop()
+        order.reverse()
+        bmap = dict(blocks)
+        out = [(l, bmap[l]) for l in order]
+        # unreachable blocks are dropped (phis never name them as live predecessors on any executed edge)
+        return out
 
     def edge(self, frm, to, body):
         """phi copies + goto"""
@@ -1308,6 +1351,42 @@ def run(a):
         if e not in mod.functions:
             raise IRError('entry %s not in module' % e)
         em.use_global(e)
+    em.entry_names = set(a.entry)
+    # dynamic initialisers: candidate functions and the globals each mentions
+    init_cands = []
+    if 'llvm.global_ctors' in mod.globals:
+        gc = global_init(mod.globals['llvm.global_ctors'])
+        if gc[0] == 'agg':
+            for (et, ev) in gc[2]:
+                fn = ev[2][1][1]
+                while fn[0] == 'cexpr':
+                    fn = fn[3][1]
+                if fn[0] != 'global':
+                    continue
+                fname = fn[1]
+                f = mod.functions.get(fname)
+                if f is None or f.body_lines is None:
+                    continue
+                if fname.startswith('_GLOBAL__sub_I'):
+                    for ln in f.body_lines:
+                        mm = re.search(r'call .*@("[^"]+"|[-a-zA-Z$._0-9]+)\(\)', ln)
+                        if mm:
+                            init_cands.append(unquote(mm.group(1)))
+                else:
+                    init_cands.append(fname)
+    init_mentions = {}
+    for c in init_cands:
+        f = mod.functions.get(c)
+        if f is None or f.body_lines is None:
+            continue
+        names = set()
+        for ln in f.body_lines:
+            for mm in re.finditer(r'@("[^"]+"|[-a-zA-Z$._0-9]+)', ln):
+                n = unquote(mm.group(1))
+                if n in mod.globals and not n.startswith('.str') and n != '__dso_handle':
+                    names.add(n)
+        init_mentions[c] = names
+    init_included = []
     func_text = []
     real_bodies = []
     undefined = []
@@ -1334,6 +1413,12 @@ def run(a):
             name = em.used_globals[gi]
             gi += 1
             global_text[name] = em.emit_global(name)
+        if i >= len(em.used_funcs) and gi >= len(em.used_globals):
+            # closure complete: pull in the dynamic initialisers of the globals it uses (fixpoint)
+            for c in init_cands:
+                if c not in init_included and c in init_mentions and (init_mentions[c] & em.used_globals_set):
+                    init_included.append(c)
+                    em.use_global(c)
     # externals: must be provided by rt (listed) or it is an error
     dem = demangle_all(undefined)
     missing = [n for n in undefined if n not in rt_provided and not is_rt_builtin(n)]
@@ -1396,6 +1481,16 @@ def run(a):
     out.extend(x.rstrip() for x in em.global_fwd)
     out.extend(gdefs)
     out.extend(func_text)
+    out.append('void ir2c_global_init(void) {')
+    out.append('  static int done; if (done) return; done = 1;')
+    for c in init_included:
+        out.append('  %s();' % em.fname(c))
+    out.append('}')
+    for e in a.entry:
+        ef = mod.functions[e]
+        if ef.params or ef.ret != ('void',):
+            raise IRError('entry %s must be void(void)' % e)
+        out.append('void %s(void) { ir2c_global_init(); %s(); }' % (em.gname(e), em.fname(e)))
     for n in undefined:
         out.append('#define IR2C_NEED_%s 1' % sanitize(n))
     for n in em.used_globals:
@@ -1411,7 +1506,7 @@ def run(a):
                    'real_bodies_mangled': real_bodies,
                    'replaced': {dem.get(k, k): v for k, v in em.replace.items() if k in em.used_funcs_set},
                    'rt_models': sorted(n for n in undefined),
-                   'globals': em.used_globals,
+                   'globals': em.used_globals, 'dynamic_initialisers_run': init_included,
                    'scale': a.scale}, open(a.report, 'w'), indent=1)
 
 
